@@ -145,6 +145,9 @@ cycles:
 				stop = true
 				break cycles
 			}
+			if pl.Concurrent && sim.AliveAt(morassWriterSite) >= 2 {
+				sim.Probe("two_writers_active_during_push")
+			}
 			if got := m.Len(); got != int64(i+1) {
 				fail("morass-len@push", "cycle %d: Len() = %d after %d pushes", ci, got, i+1)
 			}
@@ -153,6 +156,27 @@ cycles:
 			}
 		}
 		n := len(cy.Keys)
+		if pl.Concurrent {
+			switch alive := sim.AliveAt(morassWriterSite); {
+			case alive >= 2:
+				sim.Probe("finalise_entered_with_2_writers_in_flight")
+			case alive == 1:
+				sim.Probe("finalise_entered_with_writer_in_flight")
+			}
+		}
+		if ci > 0 {
+			prev := pl.Cycles[ci-1]
+			pn := len(prev.Keys)
+			switch {
+			case pn < pl.Chunk && n >= pl.Chunk:
+				sim.Probe("in_memory_cycle_then_spilling_cycle")
+			case pn >= pl.Chunk && n < pl.Chunk:
+				sim.Probe("spilling_cycle_then_in_memory_cycle")
+			}
+			if prev.Drain >= 0 && prev.Drain < pn {
+				sim.Probe("partial_drain_then_clear")
+			}
+		}
 		sim.Mark("finalise-enter")
 		if ioErr("Finalise", m.Finalise()) {
 			stop = true
